@@ -237,6 +237,9 @@ def _to_stiefel_euler_real(theta, dim, rank):
     if isinstance(theta, torch.Tensor):
         for theta_i in theta_list:
             N0 = theta_i.shape[1]
+            if N0==0: #rank==dim: the first block is the 1-by-1 identity
+                ret = torch.ones(batch, 1, 1, dtype=theta.dtype, device=theta.device)
+                continue
             ct = torch.cos(theta_i)
             st = torch.sin(theta_i)
             cum_st = torch.cumprod(st, dim=1)
@@ -257,6 +260,9 @@ def _to_stiefel_euler_real(theta, dim, rank):
     else:
         for theta_i in theta_list:
             N0 = theta_i.shape[1]
+            if N0==0: #rank==dim: the first block is the 1-by-1 identity
+                ret = np.ones((batch, 1, 1), dtype=theta.dtype)
+                continue
             ct = np.cos(theta_i)
             st = np.sin(theta_i)
             cum_st = np.cumprod(st, axis=1)
@@ -290,6 +296,9 @@ def _to_stiefel_euler_complex(theta, dim, rank, with_phase):
     if isinstance(theta, torch.Tensor):
         for theta_i,phi_i in theta_list:
             N0 = theta_i.shape[1]
+            if N0==0: #rank==dim: the first block is the 1-by-1 identity
+                ret = torch.ones(batch, 1, 1, dtype=theta.dtype, device=theta.device)
+                continue
             tmp0 = phi_i[:,:1]*0
             cum_expp = torch.exp(1j*(torch.cumsum(torch.concat([tmp0, phi_i], dim=1), dim=1) - torch.concat([phi_i, tmp0], dim=1)))
             expp = torch.exp(1j*phi_i)
@@ -315,6 +324,9 @@ def _to_stiefel_euler_complex(theta, dim, rank, with_phase):
     else:
         for theta_i,phi_i in theta_list:
             N0 = theta_i.shape[1]
+            if N0==0: #rank==dim: the first block is the 1-by-1 identity
+                ret = np.ones((batch, 1, 1), dtype=theta.dtype)
+                continue
             tmp0 = np.zeros((batch,1))
             cum_expp = np.exp(1j*(np.cumsum(np.concatenate([tmp0, phi_i], axis=1), axis=1) - np.concatenate([phi_i, tmp0], axis=1)))
             expp = np.exp(1j*phi_i)
